@@ -297,15 +297,15 @@ abbrev Matrix := List (Str × List Cell)
 /-! ### NEXUS matrix reading: rows are (label token, text); taxa in namespace order -/
 abbrev Acc := List (Str × Option (List Cell))
 
-def findRow (acc : Acc) (label : Str) : Option (Option (List Cell)) :=
+def findRow {α : Type} (acc : List (Str × Option α)) (label : Str) : Option (Option α) :=
   (acc.find? (fun p => lower p.1 == lower label)).map (·.2)
 
-def setRow (acc : Acc) (label : Str) (cells : List Cell) : Acc :=
+def setRow {α : Type} (acc : List (Str × Option α)) (label : Str) (cells : α) : List (Str × Option α) :=
   match acc with
   | [] => [(label, some cells)]
   | p :: ps => if lower p.1 == lower label then (p.1, some cells) :: ps else p :: setRow ps label cells
 
-def accRows (acc : Acc) : Matrix := acc.filterMap (fun p => p.2.map (fun c => (p.1, c)))
+def accRows {α : Type} (acc : List (Str × Option α)) : List (Str × α) := acc.filterMap (fun p => p.2.map (fun c => (p.1, c)))
 
 structure NxCfg where
   al : List St
@@ -545,6 +545,36 @@ of which must be a number -/
 def contRead (text : Str) : Except Err (List Str) :=
   let ws := wsWords text
   if ws.all (fun t => (parseDec t).isSome) then .ok ws else .error .invalidSymbol
+
+/-! ### NEXUS continuous matrices (`_process_continuous_matrix_data` / `_read_continuous_character_values`): rows are
+(label token, text); a row's text is split at white space into value tokens, each of which must be a number -/
+abbrev CMatrix := List (Str × List Str)
+
+def nxStepC (cfg : NxCfg) (stt : Except Err (List (Str × Option (List Str)))) (row : Str × Str) :
+    Except Err (List (Str × Option (List Str))) :=
+  match stt with
+  | .error e => .error e
+  | .ok acc =>
+    let known := findRow acc row.1
+    if known.isNone && !(cfg.ntax == 0 || acc.length < cfg.ntax) then .error .tooManyTaxa else
+    let cur := (known.getD none).getD []
+    match contRead row.2 with
+    | .error e => .error e
+    | .ok toks =>
+      let all := cur ++ toks
+      if all.length > cfg.nchar then .error .tooMany
+      else if !cfg.interleave && all.length < cfg.nchar then .error .insufficient
+      else .ok (setRow acc row.1 all)
+
+def nxReadC (cfg : NxCfg) (taxa : List Str) (rows : List (Str × Str)) : Except Err CMatrix :=
+  match rows.foldl (nxStepC cfg) (.ok (taxa.map (fun t => (t, none)))) with
+  | .error e => .error e
+  | .ok acc =>
+    -- the final check of `_parse_matrix_statement`: every sequence has NCHAR values
+    if (accRows acc).all (fun r => r.2.length == cfg.nchar) then .ok (accRows acc) else .error .count
+
+/-- the rows of a continuous CHARACTERS block as the writer lays them out: every value followed by a blank -/
+def nxRowsC (m : CMatrix) : List (Str × Str) := m.map (fun r => (r.1, contRender true r.2))
 
 /-! ### FASTA -/
 def wrap70 (col : Nat) : Str → Str
